@@ -411,6 +411,7 @@ func rulesC04(w *World, r *Report) {
 	w.ruleRefKeyPins(r, "C04.R2 a miss inserts and takes the next ordinal")
 	w.ruleRefKeyIdentity(r, "C04.R6 the ref key identifies the container")
 	w.ruleTablesAppendOnly(r, "C04.R7 ref tables are append-only within a stream", []string{"Encoder", "Decoder"})
+	w.ruleTablesStartEmpty(r, "C04.R7 numbering tables start empty", []string{"Encoder", "Decoder"})
 	w.ruleNotifyAfterFinalValue(r, "C04.R5 references keep identity")
 
 	// R3 decoder: container readers
